@@ -108,6 +108,9 @@ JudgeCall(e, s, isCount) ==
   ELSE IF s.ext /\ \E st \in RngT(e.steps) : st.k # "grow" /\ (st.pos + st.len > s.cap \/ st.pos + T > s.cap) THEN "C07:reserve"
   ELSE IF ~s.ext /\ e.outside = 4 THEN "C08:growth-lost-earlier-bytes"
   ELSE IF ~s.ext /\ good /\ e.ret # 0 THEN "C08:failed-on-managed-buffer"
+  \* a program of valid lines for which the documented room rule (20 reserve bytes before every instruction) is satisfied must assemble,
+  \* whatever blank, comment or label lines and line ends it contains
+  ELSE IF s.ext /\ good /\ e.ret # 0 /\ r.ok /\ ~("expectfail" \in DOMAIN e) THEN "C06:valid-program-with-room-rejected"
   ELSE IF e.off0 # s.off THEN "C15:start-offset"
   ELSE IF e.ret # 0 /\ e.off1 # e.off0 THEN "C15:failed-call-moved-offset"
   ELSE IF "expectfail" \in DOMAIN e /\ e.ret = 0 THEN "C19:missing-or-unreadable-file-accepted"
